@@ -159,6 +159,26 @@ inline Outcome de_outcome(const std::string& t) {
     return o;
 }
 
+// index of this search worker (0..15) when started by ./check, else -1; engines use it to spread over cores
+inline int& worker_index() { static int w = -1; return w; }
+// Where a forked child writes its outcome; -1 when the case runs in-process (replay).
+inline int& result_fd() { static int fd = -1; return fd; }
+// End the case right here (used by engines that cannot unwind: a run stopped at quiescence, at a
+// step bound or on the first violation while OS threads are parked).  Never returns.
+[[noreturn]] inline void finish_now(const Outcome& o) {
+    if (result_fd() >= 0) {
+        std::string s = ser_outcome(o);
+        size_t off = 0;
+        while (off < s.size()) { ssize_t w = write(result_fd(), s.data() + off, s.size() - off); if (w <= 0) break; off += w; }
+        _exit(0);
+    }
+    printf("RESULT %s nontrivial=%d\n", o.status == 0 ? "ok" : o.status == 1 ? "violation" : "inconclusive", (int)o.nontrivial);
+    for (auto& l : o.labels) printf("LABEL %s\n", l.c_str());
+    if (!o.msg.empty()) printf("MSG %s\n", o.msg.c_str());
+    fflush(stdout);
+    _exit(o.status);
+}
+
 struct ForkRunner {
     std::string scratch;
     int wall_limit_s = 120;
@@ -253,6 +273,7 @@ struct ForkRunner {
             if (efd >= 0) { dup2(efd, 2); close(efd); }
             int nfd = open("/dev/null", O_WRONLY);
             if (nfd >= 0) { dup2(nfd, 1); close(nfd); }
+            result_fd() = pfd[1];
             Outcome o = fn(c);
             std::string s = ser_outcome(o);
             size_t off = 0;
@@ -369,6 +390,7 @@ inline int pbt_main(int argc, char** argv, Harness h) {
         while (std::getline(is, t, ',')) if (!t.empty()) opt.exclude.insert(t);
     }
     opt.tier = a["--tier"] == "thorough" ? 1 : 0;
+    if (a.count("--worker")) worker_index() = atoi(a["--worker"].c_str());
     if (a.count("--replay")) {
         std::string p; Case c;
         from_text(read_file(a["--replay"]), &p, &c);
